@@ -45,9 +45,15 @@ def conc_key(v):
     return None
 
 
+CMP_HOOKS = {}       # ADT name -> fn(it, a, b) -> -1/0/1 : order of keys whose real order is that of a byte encoding
+RANGE_HOOKS = {}     # ADT name -> fn(it, value) -> (lo_bound, hi_bound) for model range objects
+
+
 def cmp_values(it, a, b):
     """three-way comparison -1/0/1 following the key type's Ord"""
     a0, b0 = deref(a), deref(b)
+    if isinstance(a0, Agg) and a0.ty in CMP_HOOKS:
+        return CMP_HOOKS[a0.ty](it, a0, b0)
     if isinstance(a0, Agg) and a0.ty:
         c = it.prog.traitimpl.get((a0.ty, 'Ord', 'cmp'))
         if c:
@@ -279,7 +285,8 @@ def _map_clear(it, key, raw, args):
 
 def _kv_items(m, by_ref=True):
     if m.kind == 'StableBTreeMap':
-        return [tup(deep_clone(k), deep_clone(c.v)) for k, c in m.entries]
+        # ic-stable-structures 0.7: iterators yield lazy entries (key(), value(), into_pair())
+        return [Agg('LazyEntry', [Cell(deep_clone(k)), Cell(deep_clone(c.v))]) for k, c in m.entries]
     if by_ref:
         return [tup(Ref(Cell(k)), Ref(c)) for k, c in m.entries]
     return [tup(k, c.v) for k, c in m.entries]
@@ -401,6 +408,8 @@ def range_as_bounds(it, r):
             return ('unbounded', None), ('unbounded', None)
         if t == '()' and len(r.fields) == 2:
             return bound_of(r.f(0)), bound_of(r.f(1))
+        if t in RANGE_HOOKS:
+            return RANGE_HOOKS[t](it, r)
         # a crate type implementing RangeBounds
         sb = it.prog.traitimpl.get((t, 'RangeBounds', 'start_bound'))
         eb = it.prog.traitimpl.get((t, 'RangeBounds', 'end_bound'))
@@ -610,3 +619,19 @@ for _k in MAPS + SETS:
     MODELS['<%s as PartialEq>::eq' % _k] = lambda it, key, raw, args: deref(args[0]).eq_value(it, deref(args[1]))
     MODELS['<%s as IntoIterator>::into_iter' % _k] = lambda it, key, raw, args: models_std.into_iter(it, args[0])
     MODELS['<&%s as IntoIterator>::into_iter' % _k] = lambda it, key, raw, args: models_std.into_iter(it, args[0])
+
+
+@model('LazyEntry::key')
+def _lazy_key(it, key, raw, args):
+    return Ref(deref(args[0]).fields[0])
+
+
+@model('LazyEntry::value')
+def _lazy_value(it, key, raw, args):
+    return deep_clone(deref(args[0]).fields[1].v)
+
+
+@model('LazyEntry::into_pair')
+def _lazy_into_pair(it, key, raw, args):
+    e = deref(args[0])
+    return tup(e.fields[0].v, e.fields[1].v)
